@@ -193,4 +193,40 @@ PROPS["C19"] = {
     "technique": "Coq theorems about an ownership-count model + differential execution against an instrumented sample type (partial: memory safety itself is not expressible)",
 }
 
+# ---- bit-exact float / integer stream (Check/Float.v, harness/src/props/fx*.rs) --------------------------------
+FX = {
+    "C03": "moving mean (f64, f32, checked i64; widths 1-16)",
+    "C15": "differentiate, integrate and both pipes",
+    "C13": "exponential mean and exponential median",
+    "C14": "alpha-beta filter",
+    "C06": "Kalman filter, both Filter impls (the integer instance exercises truncating division and the zero-divisor panic)",
+    "C16": "sliding-window and exponential mean-variance",
+    "C05": "Convolve::with_config and Convolve::normalized",
+    "C07": "wavelet Analyze and Synthesize with arbitrary kernels",
+    "C11": "sum, mean, mean-variance (with finalize), min and max sinks",
+    "C08": "threshold, Schmitt trigger and debounce with sample-valued outputs, thresholds/predicates coinciding with samples, NaN and infinities",
+    "C09": "slopes and value-driven peaks with sample-valued outputs, NaN and infinities",
+    "C04": "moving max, min and bounds",
+    "C02": "moving median (NaN, infinities, both zeros)",
+    "C17": "moving median (NaN, infinities, both zeros)",
+    "C18": "Hampel filter in f64 and f32 (factor 1.4826 as compiled into the crate), thresholds incl. 0 and 1e-9, nano-scale and huge samples",
+    "C12": "every resettable arithmetic / comparison filter (24 kinds): history that may drive the state to inf/NaN, Reset::reset, then a probe that must match a fresh filter",
+}
+_FX_CORR = ("; bit-exact stream: the same generic model (Model/Generic.v, proved equal to the rational model step by step in Proofs/Generic.v, "
+            "or the polymorphic model instantiated with the sample type's own comparisons) evaluated at IEEE-754 binary64/binary32 (Coq SpecFloat, pure Gallina) and at Z, "
+            "against the f64 / f32 / checked-i64 instantiations of ")
+_FX_RULE = ("; bit-exact stream (spec kind fx): per filter kind and sample type seeded histories in 8-9 modes (inexact decimals, mixed magnitudes, arbitrary bit patterns, "
+            "special values inf/-inf/NaN/-0.0/MAX/MIN_POSITIVE/subnormal, near-overflow, subnormal range, large offset with tiny variation, nano-scale; comparison filters mostly a small ordered set with specials), "
+            "outputs compared bit for bit (all NaNs identified); integer cases that overflow i64 are skipped and counted; these cases carry no property-level spec (verdict bit 1 only)")
+_FX_TRUST = ("float / integer instantiations: Coq's SpecFloat (Coq.Floats.SpecFloat: SFadd, SFsub, SFmul, SFdiv, SFabs, SFltb, SFleb, SFeqb, SFcompare at (53,1024) and (24,128)) "
+             "taken as the definition of IEEE-754 round-to-nearest-even arithmetic; rustc compiling f64/f32 operations to IEEE operations without contraction or reassociation; "
+             "the float bit pattern -> spec_float printer of harness/src/props/fx.rs; i64 runs use a checked wrapper (overflowing cases are skipped), so wrap-around itself is not modelled")
+for _pid, _what in FX.items():
+    _P = PROPS[_pid]
+    _P["corr"] += _FX_CORR + _what
+    _P["rule"] += _FX_RULE
+    _P["trusted"] = [t.replace("; floats and integer overflow are not modelled", "").replace("; floats not modelled", "").replace("; i64 runs use small values (no overflow modelled)", "") for t in _P["trusted"]] + [_FX_TRUST]
+    _P["level_note"] = _P["level_note"].replace("exact arithmetic (float rounding not modelled)", "exact arithmetic for the theorems").replace("(floats and i64 overflow not modelled)", "for the theorems") \
+        + " The theorems are about exact arithmetic; float rounding, non-finite values and truncating integer division are covered by the bit-exact correspondence stream only (a disagreement there is reported as a correspondence break)."
+
 NOT_YET = {}
